@@ -25,6 +25,7 @@ import (
 	"sort"
 	"strconv"
 	"strings"
+	"sync"
 	"time"
 
 	libaudit "github.com/elastic/go-libaudit/v2"
@@ -1058,6 +1059,15 @@ func concFamily(ctx *Ctx) error {
 	// the race-detector stress child runs alongside the enumeration
 	stress := startConcStress(ctx)
 
+	// sizes the enumerated systems do not reach: hundreds of events in flight when Close is invoked (several
+	// pushers, then Close from two goroutines): every message pushed before Close is delivered exactly once
+	for _, n := range []int{255, 256, 257, 300, 1100} {
+		if cl := concLargeClose(n); cl != "" {
+			res.Violate(common.Violation{Kind: "monitor", Clause: cl, Input: map[string]int{"events_in_flight_at_close": n, "max_in_flight": 2 * n}})
+		}
+		res.Hist("large close")
+	}
+
 	report := func(v *common.Violation) {
 		if v == nil {
 			return
@@ -1184,4 +1194,65 @@ func concReplay(ctx *Ctx, run *concRun) error {
 		return fmt.Errorf("unknown case kind %q", cc.Kind)
 	}
 	return nil
+}
+
+type countStream struct {
+	mu    sync.Mutex
+	count map[int]int
+}
+
+func (s *countStream) ReassemblyComplete(msgs []*auparse.AuditMessage) {
+	s.mu.Lock()
+	for _, m := range msgs {
+		s.count[int(m.Sequence)]++
+	}
+	s.mu.Unlock()
+}
+func (s *countStream) EventsLost(int) {}
+
+// concLargeClose: n incomplete events pushed by three goroutines, then Close from two goroutines.
+func concLargeClose(n int) (clause string) {
+	defer func() {
+		if r := recover(); r != nil {
+			clause = fmt.Sprintf("panic with %d events in flight at Close: %v", n, r)
+		}
+	}()
+	st := &countStream{count: map[int]int{}}
+	r, err := libaudit.NewReassembler(2*n, time.Hour, st)
+	if err != nil {
+		return "constructor: " + err.Error()
+	}
+	var wg sync.WaitGroup
+	for g := 0; g < 3; g++ {
+		wg.Add(1)
+		go func(g int) {
+			defer wg.Done()
+			for i := g; i < n; i += 3 {
+				r.PushMessage(&auparse.AuditMessage{RecordType: 1300, Sequence: uint32(1000 + i)})
+			}
+		}(g)
+	}
+	wg.Wait()
+	errs := make([]error, 2)
+	for g := 0; g < 2; g++ {
+		wg.Add(1)
+		go func(g int) { defer wg.Done(); errs[g] = r.Close() }(g)
+	}
+	wg.Wait()
+	if (errs[0] == nil) == (errs[1] == nil) {
+		return fmt.Sprintf("exactly one Close call succeeds: two concurrent Close calls returned %v and %v", errs[0], errs[1])
+	}
+	missing, dup := 0, 0
+	for i := 0; i < n; i++ {
+		switch c := st.count[1000+i]; {
+		case c == 0:
+			missing++
+		case c > 1:
+			dup++
+		}
+	}
+	if missing > 0 || dup > 0 {
+		return fmt.Sprintf("exactly once after quiescence: of %d messages pushed before Close was invoked, %d were never delivered and %d more than once", n, missing, dup)
+	}
+	return ""
 }
